@@ -43,10 +43,12 @@ def _runtime(case):
                         pass
                     table.append([si, ri, one])
                     flat += one
-                if opts.get("dedupe", True):
-                    flat = list(dict.fromkeys(flat))
-                ref.append({key: flat, "count": len(flat)})
-            vals.append(["every entry alone (SynReactor, rule by rule)", [ref, ref] if case.get("twice") else ref])
+            # the literal reference: each entry ALONE through the same public API (single-entry batch, serial, cache off); the
+            # rule-by-rule SynReactor results above only feed the worker-process model (mechanism -> correspondence)
+            for s_ in case["subs"]:
+                one = BatchReactor([s_], entry_n_jobs=1, cache_enabled=False, **opts).fit(list(case["rules"]), invert=case["inv"])
+                ref.append(one[0])
+            vals.append(["every entry alone (single-entry batch, cache off)", [ref, ref] if case.get("twice") else ref])
             vals.append(["__table__", table])
     elif what == "validate":
         from synkit.Chem.Reaction.aam_validator import AAMValidator
